@@ -1,0 +1,145 @@
+//go:build verif
+
+// Contracts for package scheduler, checked by /verif/engine (cffvc).
+// This file contains comments only: with or without the build tag the
+// compiled package is identical.
+//
+// Syntax: Gobra-style //@ lines, one clause per line ('\' continues a line).
+// Clauses are keyed by function (ssa RelString name) and, inside a function,
+// by ordinal of the loop / select / call / send / store site in source order.
+// A clause is "kind [properties] label: expression"; expressions are Go
+// expressions over the function's variables, ghost variables and the spec
+// functions implies, iff, ite, forall, exists, old, len, cap, closed, in, add,
+// remove, card, listlen, listat, stopped, gomaxprocs, ptr.
+
+package scheduler
+
+//@ func idleWorkers
+//@   ensures [C19] idle-nonneg: result >= 0
+//@   ensures [C19] idle-diff: implies(ongoing <= concurrency, result == concurrency - ongoing)
+//@   ensures [C19] idle-clamp: implies(ongoing > concurrency, result == 0)
+
+// ---------------------------------------------------------------------------
+// Enqueue: allocates a job with the immutable fields set and every
+// loop-owned field zero, sends exactly that job once on enqueuec, returns it.
+
+//@ func (*Scheduler).Enqueue
+//@   ghost nsend int = 0
+//@   ghost sentJob ref = 0
+//@   ghost sentCh ref = 0
+//@   requires s != nil
+//@   requires api-enqueue-before-wait: s.enqueuec != nil && !closed(s.enqueuec)
+//@   at send 1 ghost nsend = nsend + 1
+//@   at send 1 ghost sentJob = sent
+//@   at send 1 ghost sentCh = ch
+//@   ensures [C09,C12] ctx-stored: result.ctx == ctx
+//@   ensures [C01,C12] run-stored: result.run == j.Run
+//@   ensures [C01,C12] deps-stored: result.deps == j.Dependencies
+//@   ensures [C01,C12,C19] zero-state: result.remaining == 0 && len(result.consumers) == 0 && !result.done && result.err == nil && !result.invalid
+//@   ensures [C05,C07,C01] sent-once: nsend == 1 && sentJob == result && sentCh == s.enqueuec && result != nil
+
+// ---------------------------------------------------------------------------
+// Wait: closes enqueuec first, then blocks only in a select that has both the
+// context arm and the finished arm.
+
+//@ func (*Scheduler).Wait
+//@   ghost arm int = 0
+//@   ghost doneErr error = 0
+//@   ghost finErr error = 0
+//@   requires s != nil
+//@   requires api-wait-called-once: s.enqueuec != nil && !closed(s.enqueuec)
+//@   at select 1 pre assert [C05,C09] close-before-block: closed(s.enqueuec)
+//@   at select 1 arm 1 expect recv
+//@   at select 1 arm 2 expect recv
+//@   at select 1 arm 2 assert [C05,C07] finished-arm: ch == s.finishedc
+//@   at select 1 arm 1 ghost arm = 1
+//@   at select 1 arm 2 ghost arm = 2
+//@   at call Done 1 ghost doneErr = 0
+//@   at call Err 1 assume ctx-err-after-done: ret != nil
+//@   at call Err 1 ghost doneErr = ret
+//@   at call Err 2 ghost finErr = ret
+//@   ensures [C09] arm-taken: arm == 1 || arm == 2
+//@   ensures [C09] ctx-arm-returns-ctx-err: implies(arm == 1, result == doneErr && result != nil)
+//@   ensures [C07,C04] finished-returns-loop-error: implies(arm == 2 && s.err != nil, result == s.err)
+//@   ensures [C07,C09] finished-clean-returns-ctx-err: implies(arm == 2 && s.err == nil, result == finErr)
+//@   ensures [C07] nil-only-when-finished-clean: implies(result == nil, arm == 2 && s.err == nil && finErr == nil)
+
+// ---------------------------------------------------------------------------
+// Config.New
+
+//@ func (Config).New
+//@   ghost ngo int = 0
+//@   requires c.Concurrency >= 0
+//@   at go 1 ghost ngo = ngo + 1
+//@   at go 2 ghost ngo = ngo + 1
+//@   ensures [C03,C19] concurrency-configured: implies(old(c.Concurrency) != 0, result.concurrency == old(c.Concurrency))
+//@   ensures [C03,C19] concurrency-default: implies(old(c.Concurrency) == 0, result.concurrency == ite(gomaxprocs() < 4, 4, gomaxprocs()))
+//@   ensures [C03,C06] donec-capacity: cap(result.donec) == result.concurrency
+//@   ensures [C05] enqueuec-capacity: cap(result.enqueuec) == 1
+//@   ensures [C03] readyc-unbuffered: cap(result.readyc) == 0
+//@   ensures [C08] continue-flag: result.continueOnError == old(c.ContinueOnError)
+//@   ensures [C03] two-go-statements: ngo == 2
+//@   ensures [C07] err-initially-nil: result.err == nil
+//@   ensures [C05] channels-distinct-open: !closed(result.enqueuec) && !closed(result.readyc) && !closed(result.finishedc) && result.enqueuec != nil && result.readyc != nil && result.donec != nil && result.finishedc != nil
+
+// Spawner goroutine of New: starts exactly c.Concurrency workers on the
+// scheduler's two channels.
+
+//@ func (Config).New$1
+//@   ghost nspawn int = 0
+//@   requires c.Concurrency >= 0
+//@   loop 1 invariant [C03] spawned-so-far: nspawn == i && 0 <= i && i <= c.Concurrency
+//@   at go 1 ghost nspawn = nspawn + 1
+//@   at go 1 assert [C03] spawns-worker-on-scheduler-channels: arg0 == readyc && arg1 == donec
+//@   ensures [C03] spawns-exactly-concurrency: nspawn == c.Concurrency
+
+// ---------------------------------------------------------------------------
+// worker: per received job exactly one result with Job == that job; run is
+// called at most once, only with a live context and a valid job, with the
+// job's own context; the result carries run's value unchanged; a dying worker
+// (panic or runtime.Goexit in the job) still reports and starts exactly one
+// successor on the same channels; a clean exit does neither.
+//
+// Rely (guarantee of the Scheduler Loop's dispatch arm): only non-nil jobs are
+// sent on readyc.
+
+//@ func worker
+//@   may-panic
+//@   ghost held ref = 0
+//@   ghost nrun int = 0
+//@   ghost ctxErr error = 0
+//@   ghost runRet error = 0
+//@   ghost nspawn int = 0
+//@   ghost nsent int = 0
+//@   requires sentinel-initialised: errJobInvalid != nil
+//@   requires donec-never-closed: donec != nil && !closed(donec)
+//@   loop 1 invariant [C01,C05,C06] no-job-held-between-iterations: held == 0 && currentJob == nil && !exitCleanly && nspawn == 0
+//@   at recv 1 assume rely-dispatch-sends-non-nil-jobs: implies(recvok, recv != nil)
+//@   at recv 1 ghost held = ite(recvok, recv, 0)
+//@   at recv 1 ghost nrun = 0
+//@   at recv 1 ghost nsent = 0
+//@   at call Err 1 ghost ctxErr = ret
+//@   at call run 1 pre assert [C09] run-only-with-live-context: ctxErr == nil
+//@   at call run 1 pre assert [C01,C08] run-only-if-not-invalid: !ptr(ScheduledJob, held).invalid
+//@   at call run 1 pre assert [C01] run-at-most-once-per-job: nrun == 0
+//@   at call run 1 pre assert [C09] run-gets-job-context: arg0 == ptr(ScheduledJob, held).ctx
+//@   at call run 1 pre assert [C01] run-is-jobs-function: callee == ptr(ScheduledJob, held).run && held != 0
+//@   at call run 1 pre ghost nrun = nrun + 1
+//@   at call run 1 ghost runRet = ret
+//@   at send 1 assert [C05,C06,C01] result-is-for-received-job: held != 0 && sent.Job == ptr(ScheduledJob, held) && ch == donec && nsent == 0
+//@   at send 1 assert [C09] cancelled-job-reports-context-error: implies(ctxErr != nil, sent.Err == ctxErr && nrun == 0)
+//@   at send 1 assert [C08] invalid-job-reports-sentinel: implies(ctxErr == nil && ptr(ScheduledJob, held).invalid, sent.Err == errJobInvalid && nrun == 0)
+//@   at send 1 assert [C04,C07,C08] run-error-passed-unchanged: implies(ctxErr == nil && !ptr(ScheduledJob, held).invalid, nrun == 1 && sent.Err == runRet)
+//@   at send 1 ghost held = 0
+//@   at send 1 ghost nsent = nsent + 1
+//@   ensures [C03,C06] clean-exit-spawns-nothing: nspawn == 0 && held == 0
+//@   ensures@panic [C03,C05] dying-worker-replaced-exactly-once: nspawn == 1
+//@   ensures@panic [C05,C06] dying-worker-reported-its-job: held == 0 && nsent == 1
+
+//@ func worker$1
+//@   inline
+//@   at send 1 assert [C05,C06] dying-worker-reports-current-job: sent.Job == ptr(ScheduledJob, held) && ch == donec && sent.Err != nil && nsent == 0
+//@   at send 1 ghost held = 0
+//@   at send 1 ghost nsent = nsent + 1
+//@   at go 1 assert [C03] successor-on-same-channels: arg0 == readyc && arg1 == donec
+//@   at go 1 ghost nspawn = nspawn + 1
